@@ -41,6 +41,7 @@ type Engine struct {
 	sites    []site
 	base     map[string]string // prog|cfg -> hash of baseline
 	skipped  []string
+	tmp      string
 	history  []string // "progIndex|target|opt" of every compilation made by this process, in order
 	seenSite map[int]bool
 	multi    map[int]bool
@@ -79,6 +80,13 @@ func (e *Engine) Setup(tier string) error {
 		rel, _ := filepath.Rel(root, c)
 		e.corpus = append(e.corpus, prog{name: rel, path: c})
 	}
+	// a multi-package feature project (written to a temp directory): same-named
+	// packages in different directories, embedded types from two packages with
+	// same-named unexported methods, cross-package initialisation
+	if dir, err := writeFeatureProject(); err == nil {
+		e.corpus = append(e.corpus, prog{name: "feature-project", path: dir})
+		e.tmp = dir
+	}
 	// hand-written feature programs: language shapes the examples do not contain
 	for i, src := range featurePrograms {
 		e.corpus = append(e.corpus, prog{name: fmt.Sprintf("feature-%d", i), src: src})
@@ -102,6 +110,9 @@ func (e *Engine) Strides() []int    { return nil }
 func (e *Engine) ShrinkBudget() int { return 250 }
 
 func (e *Engine) Extra() map[string]any {
+	if e.tmp != "" {
+		os.RemoveAll(e.tmp)
+	}
 	x := map[string]any{}
 	for k, v := range e.base {
 		x["must_agree:"+k] = v
@@ -523,3 +534,116 @@ func main {
 	println(apple.Apple(), r.Intn(100))
 }
 `
+
+var featureProject = map[string]string{
+	"wa.mod": "name = \"featproj\"\npkgpath = \"featproj\"\ntarget = \"js\"\n",
+	"src/main.wa": `
+import "featproj/alpha"
+import "featproj/beta"
+import "featproj/geom/util"
+import "featproj/text/util" => tutil
+
+type Both :struct {
+	alpha.Machine
+	beta.Machine2
+	tag: string
+}
+
+type Twin :struct {
+	alpha.Logger
+	beta.Journal
+}
+
+global start = util.Scale(alpha.Seed) + len(tutil.Pad("x", beta.Width))
+
+func main {
+	b := &Both{tag: "t"}
+	b.Machine.Run()
+	b.Machine2.Run()
+	t := &Twin{}
+	t.Logger.Log()
+	t.Journal.Write()
+	println(start, b.tag, util.Scale(3), tutil.Pad("ab", 4))
+}
+`,
+	"src/alpha/alpha.wa": `
+global Seed = 7
+
+type Machine :struct {
+	N: int
+}
+
+func Machine.Run() {
+	this.reset()
+	this.step()
+	println("alpha.Machine", this.N)
+}
+
+func Machine.reset() { this.N = 1 }
+func Machine.step() { this.N += 2 }
+
+type Logger :struct {
+	K: int
+}
+
+func Logger.Log() {
+	this.reset()
+	println("alpha.Logger", this.K)
+}
+
+func Logger.reset() { this.K = 100 }
+`,
+	"src/beta/beta.wa": `
+global Width = 5
+
+type Machine2 :struct {
+	M: int
+}
+
+func Machine2.Run() {
+	this.reset()
+	this.step()
+	println("beta.Machine2", this.M)
+}
+
+func Machine2.reset() { this.M = 10 }
+func Machine2.step() { this.M += 20 }
+
+type Journal :struct {
+	J: int
+}
+
+func Journal.Write() {
+	this.reset()
+	println("beta.Journal", this.J)
+}
+
+func Journal.reset() { this.J = 200 }
+`,
+	"src/geom/util/util.wa": `
+func Scale(x: int) => int { return x * 3 }
+`,
+	"src/text/util/util.wa": `
+func Pad(s: string, n: int) => string {
+	for len(s) < n {
+		s += "."
+	}
+	return s
+}
+`,
+}
+
+func writeFeatureProject() (string, error) {
+	dir, err := os.MkdirTemp("", "verif-c27proj.")
+	if err != nil {
+		return "", err
+	}
+	for name, src := range featureProject {
+		p := filepath.Join(dir, name)
+		os.MkdirAll(filepath.Dir(p), 0o755)
+		if err := os.WriteFile(p, []byte(src), 0o644); err != nil {
+			return "", err
+		}
+	}
+	return dir, nil
+}
